@@ -8,9 +8,9 @@ PID = "C02"
 LEVEL = "model_checking"
 RULE = (
     "every control-flow skeleton of gen/skeletons.py: a spine of nested constructs {if, for, for-else, while, "
-    "while-else, try-except (6 handler shapes), try-finally, try-except-else-finally, with (6 manager shapes), "
+    "while-else, try-except (7 handler shapes incl. except BaseException), try-finally, try-except-else-finally, with (6 manager shapes), "
     "nested def} up to the tier's nesting depth with every placement of at most 2 jumps {break, continue, "
-    "return, raise E, raise subclass, raise-from, bare raise, ZeroDivisionError, assert} in the remaining slots; "
+    "return, raise E, raise subclass, raise of a BaseException that is not an Exception, raise-from, bare raise, ZeroDivisionError, assert} in the remaining slots; "
     "kept iff CPython compiles it; executed by AstEval and by CPython; observation = (globals incl. returned value, "
     "tracer trail incl. context-manager enter/exit arguments, exception type and cause type). distinct = distinct "
     "observation; non-trivial = a jump or an exception changed the path (trail differs from straight fall-through)"
@@ -48,7 +48,15 @@ def check_one(res, cfg, src):
     nontrivial = py[2] is not None or "'end'" not in src or len(py[1]) != src.count("t(")
     res.case(ps, nontrivial=nontrivial, transitions=len(ps[1]) + 1, config=cfg, sample={"src": src})
     if ps != py:
-        res.fail(f"{cfg}|{PD.diff_kind(ps, py)}", {"src": src}, expected=py, observed=ps, detail=PD.trail_diff(ps[1], py[1]))
+        sig = f"{cfg}|{PD.diff_kind(ps, py)}"
+        if "B1" in src:
+            # the recorded finding, modelled exactly: pyscript's try statement only considers exceptions derived from Exception, so a
+            # bare 'except:' / 'except BaseException' does not catch a BaseException that is not an Exception.  If pyscript agrees with
+            # CPython on the same source with those handlers narrowed to Exception, this is that finding and nothing else.
+            narrowed = src.replace("except:", "except Exception:").replace("except BaseException as", "except Exception as")
+            if narrowed != src and PD.compiles(narrowed) and PD.run_py(narrowed) == ps:
+                sig = "bare-except-misses-baseexception"
+        res.fail(sig, {"src": src}, expected=py, observed=ps, detail=PD.trail_diff(ps[1], py[1]))
 
 
 def run_shard(shard):
